@@ -25,14 +25,26 @@ pub struct Ran {
 
 /// Run `argv[0]` (resolved inside `dir`) with the remaining arguments; 60 s cap.
 pub fn run_in(dir: &Path, argv: &[String]) -> Ran {
+    run_in_stdin(dir, argv, None)
+}
+
+/// Like `run_in`, with standard input taken from the named file of the directory.
+pub fn run_in_stdin(dir: &Path, argv: &[String], stdin_file: Option<&str>) -> Ran {
     let exe = dir.join(&argv[0]);
+    let stdin = match stdin_file {
+        None => Stdio::null(),
+        Some(f) => match std::fs::File::open(dir.join(f)) {
+            Ok(f) => Stdio::from(f),
+            Err(e) => return Ran { code: None, stderr: format!("HARNESS stdin file: {}", e), stdout: String::new(), timed_out: false },
+        },
+    };
     // stdout goes to a file (the info tools print there; a pipe could fill up)
     let out_path = dir.join(".stdout");
     let out_file = match std::fs::File::create(&out_path) {
         Ok(f) => f,
         Err(e) => return Ran { code: None, stderr: format!("HARNESS stdout file: {}", e), stdout: String::new(), timed_out: false },
     };
-    let mut child = match Command::new(&exe).args(&argv[1..]).current_dir(dir).stdin(Stdio::null()).stdout(Stdio::from(out_file)).stderr(Stdio::piped()).spawn() {
+    let mut child = match Command::new(&exe).args(&argv[1..]).current_dir(dir).stdin(stdin).stdout(Stdio::from(out_file)).stderr(Stdio::piped()).spawn() {
         Ok(c) => c,
         Err(e) => return Ran { code: None, stderr: format!("HARNESS spawn {:?}: {}", exe, e), stdout: String::new(), timed_out: false },
     };
@@ -478,6 +490,7 @@ pub fn c15_tool(t: &MergeTool, out: &mut Outcome) {
             zoom_blocks_span_chroms: false,
             trailing_magic: true,
             index_last: false,
+            no_summary: false,
             autosql: None,
         };
         std::fs::write(dir.join(format!("in{}.bw", k)), encode(&spec).bytes).unwrap();
@@ -635,6 +648,13 @@ fn avg_regions(k: usize) -> Vec<(String, u32, u32, String)> {
     match k {
         0 => vec![(s("chr1"), 0, 8, s("r0"))],
         1 => vec![(s("chr1"), 0, 8, s("a")), (s("chr1"), 4, 20, s("b")), (s("chr2"), 0, 8, s("c"))],
+        // names with blanks inside and an empty name field: columns are separated by TAB only
+        3 => vec![
+            (s("chr1"), 0, 8, s("second region")),
+            (s("chr1"), 4, 20, s("")),
+            (s("chr2"), 0, 8, s("x y  z")),
+            (s("chr1"), 8, 16, s("plain")),
+        ],
         _ => {
             let mut v = vec![];
             let mut n = 0;
@@ -656,7 +676,7 @@ fn avg_regions(k: usize) -> Vec<(String, u32, u32, String)> {
 pub fn avg_tool_cases(quick: bool) -> Vec<AvgTool> {
     let mut v = vec![];
     for file in 0..2 {
-        for regions in 0..3 {
+        for regions in 0..4 {
             for namecol in [None, Some("5"), Some("interval"), Some("none")] {
                 for min_max in [false, true] {
                     for final_newline in [true, false] {
@@ -691,6 +711,7 @@ pub fn c17_tool(t: &AvgTool, out: &mut Outcome) {
         zoom_blocks_span_chroms: false,
         trailing_magic: true,
         index_last: false,
+        no_summary: false,
         autosql: None,
     };
     std::fs::write(dir.join("in.bw"), encode(&spec).bytes).unwrap();
@@ -807,6 +828,11 @@ pub fn tool_space() -> serde_json::Value {
 // C19 tool part: bedtobigbed derives the schema from the first BED line / stores --autosql verbatim
 
 pub fn c19_tool(extra: usize, supplied: Option<(String, usize)>, threads: usize, out: &mut Outcome) {
+    c19_tool_from(extra, supplied, threads, None, out)
+}
+
+/// `stdin`: the spelling of "read the BED from standard input" to use instead of the file name.
+pub fn c19_tool_from(extra: usize, supplied: Option<(String, usize)>, threads: usize, stdin: Option<&str>, out: &mut Outcome) {
     let wd = workdir();
     let dir = wd.path();
     let rest: Vec<String> = (0..extra).map(|i| format!("v{}", i)).collect();
@@ -820,14 +846,20 @@ pub fn c19_tool(extra: usize, supplied: Option<(String, usize)>, threads: usize,
     }
     std::fs::write(dir.join("in.bed"), &bed).unwrap();
     std::fs::write(dir.join("sizes"), "chr1\t100\nchr2\t50\n").unwrap();
-    let mut argv = vec![s("bedtobigbed"), s("in.bed"), s("sizes"), s("out.bb"), s("-t"), threads.to_string()];
-    let tags = vec![if supplied.is_some() { s("supplied_schema") } else { s("generated_schema") }];
+    let mut argv = vec![s("bedtobigbed"), s(stdin.unwrap_or("in.bed")), s("sizes"), s("out.bb"), s("-t"), threads.to_string()];
+    let mut tags = vec![if supplied.is_some() { s("supplied_schema") } else { s("generated_schema") }];
+    if stdin.is_some() {
+        tags.push(s("bed_from_stdin"));
+    }
     if let Some((text, _)) = &supplied {
         std::fs::write(dir.join("schema.as"), text).unwrap();
         argv.extend([s("--autosql"), s("schema.as")]);
     }
-    let r = run_in(dir, &argv);
+    let r = run_in_stdin(dir, &argv, stdin.map(|_| "in.bed"));
     out.count("tool_schema_runs", 1);
+    if stdin.is_some() {
+        out.count("tool_schema_runs_from_stdin", 1);
+    }
     if r.stderr.starts_with("HARNESS") {
         out.fail("harness_panic", &[], r.stderr);
         return;
@@ -1056,6 +1088,7 @@ pub fn c06_tool(t: &InfoTool, out: &mut Outcome) {
         zoom_blocks_span_chroms: false,
         trailing_magic: true,
         index_last: false,
+        no_summary: false,
         autosql: None,
     };
     let enc = encode(&spec);
